@@ -337,4 +337,39 @@ theorem adjust_eq {ext : Externals} {bad : List Str}
 def withUnified (a : Adjustment) (σ : AList Str Str) : Adjustment :=
   { a with linux := a.linux.map fun l => { l with resources := l.resources.map fun r => { r with unified := σ } } }
 
+/-- `adjustOrders` (two independent orders for the annotation loops, one for the unified loop)
+    is `adjust` on the adjustment whose annotation list is the merged order and whose unified
+    list is `σ` — an equality of results, not only of lookups. -/
+theorem adjustOrders_eq (ext : Externals) (s : Spec) (a : Adjustment) (π1 π2 σ : List (Str × Str)) :
+    adjustOrders ext s a π1 π2 σ =
+      adjust ext s { withUnified a σ with annotations := Annotations.mergeOrders π1 π2 } := by
+  unfold adjustOrders adjust adjustAnnotations
+  rw [Annotations.applyOrders_eq_apply]
+  cases hl : a.linux with
+  | none =>
+    simp only [withUnified, Adjustment.linuxDevices, Adjustment.cgroupsPath, Adjustment.oomScoreAdj,
+      Adjustment.resources, Adjustment.blockioClass, Adjustment.rdtClass, hl, Option.map_none]
+  | some l =>
+    cases hr : l.resources with
+    | none =>
+      simp only [withUnified, Adjustment.linuxDevices, Adjustment.cgroupsPath, Adjustment.oomScoreAdj,
+        Adjustment.resources, Adjustment.blockioClass, Adjustment.rdtClass, hl, hr, Option.map_some,
+        Option.map_none]
+    | some r =>
+      simp only [withUnified, Adjustment.linuxDevices, Adjustment.cgroupsPath, Adjustment.oomScoreAdj,
+        Adjustment.resources, Adjustment.blockioClass, Adjustment.rdtClass, hl, hr, Option.map_some]
+
+/-- `adjust` is `adjustOrders` with every map iterated in the order the adjustment lists it. -/
+theorem adjust_eq_adjustOrders (ext : Externals) (s : Spec) (a : Adjustment) :
+    adjust ext s a =
+      adjustOrders ext s a a.annotations a.annotations
+        (match a.resources with | some r => r.unified | none => []) := by
+  unfold adjustOrders adjust adjustAnnotations Annotations.applyOrders Annotations.apply
+  cases hl : a.linux with
+  | none => simp only [Adjustment.resources, hl]
+  | some l =>
+    cases hr : l.resources with
+    | none => simp only [Adjustment.resources, hl, hr]
+    | some r => simp only [Adjustment.resources, hl, hr]
+
 end Nri.Generate
